@@ -575,15 +575,398 @@ def translate_text(repo, lean_dir=None):
     return "\n".join(out)
 
 
+# ------------------------------------------------------------------ refine_obsdh_reductions / refine_adjustment
+#
+#   bool refine_obsdh_reductions(LocalNetwork* IS, bool adjusted)   (test_linearization_visitor.cpp)
+#   bool LocalNetwork::refine_adjustment()                           (network.cpp)
+#        ->  lean/Gama/Gen/RefineObsdh.lean
+#
+# The arithmetic (the `coordinates` lambda with the `adjusted` flag, the two tolerances, the S_Distance and the Z_Angle
+# branch from the two `continue` guards to the two decisions `store` / `ask`) is translated expression by expression;
+# the skeleton around it (the loop over IS->OD, the dynamic_cast dispatch, what the two `if` bodies do, the tail
+# `if (changed) IS->update_residuals(); return status;`) and the loop of refine_adjustment are matched textually and
+# emitted as data (`refineTests`).  Anything else raises TieBroken.
+
+OBS_FIELDS = {"from_dh": "o.from_dh", "to_dh": "o.to_dh", "reduction": "o.reduction"}
+
+
+class DhGen:
+    """straight-line C++ (doubles) -> Lean `let`s"""
+
+    def __init__(self, what, consts=()):
+        self.what = what
+        self.lines = []
+        self.ind = "  "
+        self.vars = {}          # C++ double -> lean name (assigned)
+        self.declared = set()   # declared, not yet assigned
+        self.points = {}        # C++ LocalPoint variable -> lean term of type DhPt K
+        self.obs = None         # name of the observation pointer
+        self.consts = set(consts)
+        self.n = 0
+
+    def bad(self, msg):
+        broken(f"{self.what}: {msg}")
+
+    def emit(self, s_):
+        self.lines.append(self.ind + s_)
+
+    def is_int(self, e):
+        if e[0] == "num":
+            return L5.num_is_int(e[1])
+        if e[0] == "un" and e[1] in "+-":
+            return self.is_int(e[2])
+        if e[0] == "bin" and e[1] in "+-*/":
+            return self.is_int(e[2]) and self.is_int(e[3])
+        return False
+
+    def ex(self, e):
+        k = e[0]
+        if k == "num":
+            return L5.lean_num(e[1])
+        if k == "var":
+            n = e[1]
+            if n == "M_PI":
+                return "(TrigScalar.pi : K)"
+            if n in self.consts:
+                return f"({n} : K)"
+            if n in self.vars:
+                return self.vars[n]
+            self.bad(f"identifier {n} read before assignment / unknown")
+        if k == "un" and e[1] in "+-":
+            return f"(-{self.ex(e[2])})" if e[1] == "-" else self.ex(e[2])
+        if k == "bin" and e[1] in "+-*/":
+            if self.is_int(e):
+                self.bad("integer arithmetic sub-expression (C++ int semantics not modelled)")
+            return f"({self.ex(e[2])} {e[1]} {self.ex(e[3])})"
+        if k == "call":
+            fn = e[1][5:] if e[1].startswith("std::") else e[1]
+            a = e[2]
+            if fn == "sqrt" and len(a) == 1:
+                return f"(Scalar.sqrt {self.ex(a[0])})"
+            if fn == "abs" and len(a) == 1:
+                return f"(Scalar.abs {self.ex(a[0])})"
+            if fn == "atan2" and len(a) == 2:
+                return f"(TrigScalar.atan2 {self.ex(a[0])} {self.ex(a[1])})"
+            if fn == "x" and len(a) == 1 and a[0][0] == "meth" and not a[0][3] and a[0][1][0] == "var" \
+                    and a[0][1][1] in self.points and a[0][2] in ("index_x", "index_y", "index_z"):
+                return f"(x {self.points[a[0][1][1]]}.i{a[0][2][-1]})"
+            self.bad(f"call of {e[1]}/{len(a)}")
+        if k == "meth" and not e[3] and e[1][0] == "var":
+            obj, name = e[1][1], e[2]
+            if obj in self.points and name in ("x", "y", "z"):
+                return f"{self.points[obj]}.pt.{name}"
+            if obj == self.obs and name in OBS_FIELDS:
+                return OBS_FIELDS[name]
+        self.bad(f"expression {e}")
+
+    def cond(self, e):
+        k = e[0]
+        if k == "bin" and e[1] in ("||", "&&"):
+            return f"({self.cond(e[2])} {e[1]} {self.cond(e[3])})"
+        if k == "un" and e[1] == "!":
+            return f"(!{self.cond(e[2])})"
+        if k == "var" and e[1] == "adjusted":
+            return "adjusted"
+        if k == "bin" and e[1] in ("<", ">", "<=", ">=", "==", "!="):
+            a, b = self.ex(e[2]), self.ex(e[3])
+            return {"<": f"decide ({a} < {b})", ">": f"decide ({b} < {a})",
+                    "<=": f"decide ({a} ≤ {b})", ">=": f"decide ({b} ≤ {a})",
+                    "==": f"(Scalar.beq {a} {b})", "!=": f"(!Scalar.beq {a} {b})"}[e[1]]
+        if k == "meth" and not e[3] and e[1][0] == "var" and e[1][1] in self.points:
+            pt, name = self.points[e[1][1]], e[2]
+            if name in ("free_xy", "free_z"):
+                return f"{pt}.pt.{name}"
+            if name in ("index_x", "index_y", "index_z"):      # int used as a condition
+                return f"({pt}.i{name[-1]} != 0)"
+            if name == "test_xyz":
+                return f"{pt}.xyz"
+        self.bad(f"condition {e}")
+
+    def assign(self, e):
+        op, lhs, rhs = e[1], e[2], e[3]
+        if lhs[0] != "var" or (lhs[1] not in self.vars and lhs[1] not in self.declared):
+            self.bad(f"assignment to {lhs}")
+        n = lhs[1]
+        val = self.ex(rhs)
+        if op != "=":
+            if n not in self.vars:
+                self.bad(f"{n} {op} before assignment")
+            val = f"({self.vars[n]} {op[0]} {val})"
+        return n, val
+
+    def let(self, n, val):
+        self.emit(f"let v_{n} : K := {val}")
+        self.vars[n] = f"v_{n}"
+        self.declared.discard(n)
+
+    def decl(self, s_):
+        ty, decls = s_[1], s_[2]
+        if ty != "double":
+            self.bad(f"declaration of type {ty}")
+        for name, ref, init in decls:
+            if ref:
+                self.bad(f"reference declaration {name}")
+            if init is None:
+                self.declared.add(name)
+                self.vars.pop(name, None)
+            else:
+                self.let(name, self.ex(init))
+
+    def cond_assigns(self, c, body):
+        """`if (c) { a op= e; … }` -> conditional lets"""
+        self.n += 1
+        b = f"b_{self.n}"
+        self.emit(f"let {b} : Bool := {self.cond(c)}")
+        for st in body:
+            if not (st[0] == "expr" and st[1][0] == "assign"):
+                self.bad("conditional body is not plain assignments")
+            n, val = self.assign(st[1])
+            if n not in self.vars:
+                self.bad("conditional first assignment")
+            self.emit(f"let v_{n} : K := if {b} then {val} else v_{n}")
+
+
+def _stmts(text, what, macros):
+    toks = normalise(L5.expand(L5.tokenize(text, what), macros))
+    return L5.P([("op", "{")] + toks + [("op", "}")], what).stmt()[1]
+
+
+def _body(st):
+    return st[1] if st[0] == "block" else [st]
+
+
+def gen_coordinates(text, macros):
+    g = DhGen("refine_obsdh_reductions: lambda coordinates")
+    stmts = _stmts(text, g.what, macros)
+    outs = ("px", "py", "pz")
+    for o_ in outs:
+        g.declared.add(o_)
+    result = lambda: "(" + ", ".join(g.vars.get(o_) or g.bad(f"{o_} unassigned") for o_ in outs) + ")"
+    done = False
+    for st in stmts:
+        if done:
+            g.bad("statement after the end")
+        if st[0] == "decl" and st[1] == "LocalPoint" and len(st[2]) == 1 and st[2][0][1] == "&" \
+                and st[2][0][2] == ("index", ("var", "PD"), ("var", "id")):
+            g.points[st[2][0][0]] = "p"
+        elif st[0] == "expr" and st[1][0] == "assign":
+            n, val = g.assign(st[1])
+            g.let(n, val)
+        elif st[0] == "if" and st[3] is None and _body(st[2]) == [("return",)]:
+            g.emit(f"if {g.cond(st[1])} then {result()} else")
+        elif st[0] == "if" and st[3] is None:
+            g.cond_assigns(st[1], _body(st[2]))
+        else:
+            g.bad(f"statement {st[0]}")
+    g.emit(result())
+    return ("/-- the lambda `coordinates(id, px, py, pz)`: the coordinates of `IS->PD[id]`, plus `x(index)/1000` of the\n"
+            "    adjustment when `adjusted` and the point is free with a non-zero index -/\n"
+            "def coordinates {K : Type} [TrigScalar K] (adjusted : Bool) (x : Nat → K) (p : DhPt K) : K × K × K :=\n"
+            + "\n".join(g.lines) + "\n")
+
+
+def gen_branch(name, cls, ptr, tol, text, macros, doc):
+    g = DhGen(f"refine_obsdh_reductions: {cls} branch", consts=("linear_tol", "angular_tol"))
+    g.obs = ptr
+    # `auto from = IS->PD[ptr->from()]; auto to = IS->PD[ptr->to()];` (copies of the two points)
+    for var, role in (("from", "pfrom"), ("to", "pto")):
+        pat = rf"auto\s+{var}\s*=\s*IS->PD\[{ptr}->{var}\(\)\];"
+        if len(re.findall(pat, text)) != 1:
+            g.bad(f"`auto {var} = IS->PD[{ptr}->{var}()];` not found")
+        text = re.sub(pat, "", text)
+        g.points[var] = f"o.{role}"
+    stmts = _stmts(text, g.what, macros)
+    store = ask = recomputed = None
+    for st in stmts:
+        if ask is not None:
+            g.bad("statement after the `status` decision")
+        if st[0] == "if" and st[3] is None and _body(st[2]) == [("expr", ("var", "continue"))]:
+            if g.vars:
+                g.bad("`continue` after arithmetic")
+            g.emit(f"if {g.cond(st[1])} then none else")
+        elif st[0] == "decl":
+            g.decl(st)
+        elif st[0] == "expr" and st[1][0] == "assign":
+            n, val = g.assign(st[1])
+            g.let(n, val)
+        elif st[0] == "expr" and st[1][0] == "call" and st[1][1] == "coordinates" and len(st[1][2]) == 4:
+            a = st[1][2]
+            if not (a[0][0] == "meth" and a[0][1] == ("var", ptr) and a[0][2] in ("from", "to") and not a[0][3]):
+                g.bad("coordinates(): first argument")
+            g.n += 1
+            c = f"c_{g.n}"
+            g.emit(f"let {c} := coordinates adjusted x o.p{a[0][2]}")
+            for o_, proj in zip(a[1:], ("1", "2.1", "2.2")):
+                if o_[0] != "var" or o_[1] not in g.declared | set(g.vars):
+                    g.bad("coordinates(): output argument")
+                g.let(o_[1], f"{c}.{proj}")
+        elif st[0] == "if" and st[3] is None and store is None:
+            body = _body(st[2])
+            if not (len(body) == 2 and body[0][0] == "expr" and body[0][1][0] == "meth" and body[0][1][1] == ("var", ptr)
+                    and body[0][1][2] == "set_reduction_dh" and len(body[0][1][3]) == 1 and body[0][1][3][0][0] == "var"
+                    and body[1] == ("expr", ("assign", "=", ("var", "changed"), ("var", "true")))):
+                g.bad("the body of the first decision is not `{ set_reduction_dh(<recomputed>); changed = true; }`")
+            recomputed = g.ex(body[0][1][3][0])
+            store = g.cond(st[1])
+        elif st[0] == "if" and st[3] is None:
+            if _body(st[2]) != [("expr", ("assign", "=", ("var", "status"), ("var", "true")))]:
+                g.bad("the body of the second decision is not `status = true;`")
+            ask = g.cond(st[1])
+            if f"({tol} : K)" not in ask:
+                g.bad(f"the second decision does not compare with {tol}")
+        else:
+            g.bad(f"statement {st}")
+    if store is None or ask is None:
+        g.bad("decisions `store` / `ask` not found")
+    g.emit(f"some ({recomputed}, {store}, {ask})")
+    return (f"/-- {doc} -/\n"
+            f"def {name} {{K : Type}} [TrigScalar K] (adjusted : Bool) (x : Nat → K) (o : DhObs K) : Option (K × Bool × Bool) :=\n"
+            + "\n".join(g.lines) + "\n")
+
+
+OBSDH_HEADER = """/-
+  GENERATED by tools/gen/c06_testlin.py — do not edit.
+  Source: lib/gnu_gama/local/test_linearization_visitor.cpp (`refine_obsdh_reductions`), test_linearization_visitor.h
+          (default `adjusted=false`), network.cpp (`LocalNetwork::refine_adjustment`), network.h (iteration counter)
+  `coordinates`, `linear_tol`, `angular_tol`, `slopeBranch`, `zenithBranch` are translated expression by expression;
+  a branch returns `none` for `continue` and `some (recomputed reduction, store, ask)` otherwise, where
+  `store` = the condition under which `set_reduction_dh(recomputed); changed = true;` run and
+  `ask`   = the condition under which `status = true;` runs.  The skeleton (loop over `IS->OD`, dispatch by
+  `dynamic_cast`, `if (changed) IS->update_residuals(); return status;`) is matched textually; the loop itself is
+  hand-modelled in `Model/RefineAdjustment.lean`.
+-/
+import Gama.Model.LinTypes
+set_option linter.unusedVariables false
+namespace Gama.Gen.Obsdh
+open Gama Gama.Lin
+
+/-- what `refine_obsdh_reductions` reads of a `LocalPoint`: coordinates and `free_xy()` / `free_z()` (`pt`),
+    `index_x()`, `index_y()`, `index_z()`, `test_xyz()` -/
+structure DhPt (K : Type) where
+  pt : Pt K
+  ix : Nat
+  iy : Nat
+  iz : Nat
+  xyz : Bool
+
+/-- what it reads of a `S_Distance` / `Z_Angle`: the two points, `from_dh()`, `to_dh()`, `reduction()` -/
+structure DhObs (K : Type) where
+  pfrom : DhPt K
+  pto : DhPt K
+  from_dh : K
+  to_dh : K
+  reduction : K
+
+/-- the tests of one turn of the loop of `refine_adjustment` -/
+inductive Test where
+  /-- `refine_obsdh_reductions(this, adjusted)` -/
+  | obsdh (adjusted : Bool)
+  /-- `TestLinearization(this)` -/
+  | testLin
+deriving DecidableEq, Repr
+
+"""
+
+
+def translate_obsdh_text(repo):
+    loc = Path(repo) / "lib" / "gnu_gama" / "local"
+    try:
+        src = L5.strip_comments((loc / "test_linearization_visitor.cpp").read_text())
+        hsrc = L5.strip_comments((loc / "test_linearization_visitor.h").read_text())
+        nsrc = L5.strip_comments((loc / "network.cpp").read_text())
+        nh = L5.strip_comments((loc / "network.h").read_text())
+        fsrc = (loc / "float.h").read_text()
+    except OSError as e:
+        broken(f"cannot read sources: {e}")
+    macros, _ = L5.read_macros(fsrc)
+    if not re.search(r"bool\s+refine_obsdh_reductions\(GNU_gama::local::LocalNetwork\*\s*IS,\s*bool\s+adjusted\s*=\s*false\);", hsrc):
+        broken("test_linearization_visitor.h: `bool refine_obsdh_reductions(LocalNetwork* IS, bool adjusted=false);` not found")
+    m = re.search(r"bool\s+GNU_gama::local::refine_obsdh_reductions\(GNU_gama::local::LocalNetwork\*\s*IS,\s*bool\s+adjusted\)\s*\{(.*?)\n\}",
+                  src, re.S)
+    if not m:
+        broken("refine_obsdh_reductions(LocalNetwork* IS, bool adjusted) not found")
+    f = re.sub(r"\s+", " ", m.group(1)).strip()
+    shape = re.fullmatch(
+        r"bool status = false; bool changed = false; "
+        r"const double angular_tol = (?P<atol>[^;]+); const double linear_tol = (?P<ltol>[^;]+); "
+        r"Vec x; if \(adjusted\) x = IS->solve\(\); "
+        r"auto coordinates = \[&\]\(const PointID& id, double& px, double& py, double& pz\) \{ (?P<lam>.*?) \}; "
+        r"auto biter = IS->OD\.begin\(\); auto eiter = IS->OD\.end\(\); "
+        r"for \(auto observation=biter; observation!=eiter; observation\+\+\) \{ "
+        r"using GNU_gama::local::S_Distance; using GNU_gama::local::Z_Angle; "
+        r"if \(S_Distance\* (?P<sp>\w+) = dynamic_cast<S_Distance\*>\(\*observation\)\) \{ (?P<sb>.*?) \} "
+        r"else if \(Z_Angle\* (?P<zp>\w+) = dynamic_cast<Z_Angle\*>\(\*observation\)\) \{ (?P<zb>.*) \} \} "
+        r"if \(changed\) IS->update_residuals\(\); return status;", f)
+    if not shape:
+        broken("refine_obsdh_reductions: skeleton changed (declarations, `if (adjusted) x = IS->solve()`, lambda, loop over "
+               "IS->OD, dispatch S_Distance / Z_Angle, `if (changed) IS->update_residuals(); return status;`)")
+    out = [OBSDH_HEADER]
+    for name, key, doc in (("angular_tol", "atol", "0.1 cc in radians"), ("linear_tol", "ltol", "1 mm / 1e3 = 1 µm in metres")):
+        g = DhGen(name)
+        e = L5.P(normalise(L5.expand(L5.tokenize(shape.group(key), name), macros)) + [("op", ";")], name).expr()
+        out.append(f"/-- `{name}` ({doc}) -/\ndef {name} {{K : Type}} [TrigScalar K] : K := {g.ex(e)}\n")
+    out.append(gen_coordinates(shape.group("lam"), macros))
+    out.append(gen_branch("slopeBranch", "S_Distance", shape.group("sp"), "linear_tol", shape.group("sb"), macros,
+                          "the `S_Distance` branch of the loop body"))
+    out.append(gen_branch("zenithBranch", "Z_Angle", shape.group("zp"), "angular_tol", shape.group("zb"), macros,
+                          "the `Z_Angle` branch of the loop body"))
+
+    # LocalNetwork::refine_adjustment
+    m = re.search(r"bool\s+LocalNetwork::refine_adjustment\(\)\s*\{(.*?)\n\}", nsrc, re.S)
+    if not m:
+        broken("LocalNetwork::refine_adjustment() not found")
+    f = re.sub(r"\s+", " ", m.group(1)).strip()
+    loop = re.fullmatch(
+        r"clear_linearization_iterations\(\); while \(next_linearization_iterations\(\)\) \{ "
+        r"bool refine = (?P<t0>[^;]+);(?P<rest>(?: if \(!refine\) refine = [^;]+;)*) "
+        r"if \(!refine\) break; increment_linearization_iterations\(\); refine_approx_coordinates\(\); \} "
+        r"return linearization_iterations\(\) > 0;", f)
+    if not loop:
+        broken("LocalNetwork::refine_adjustment(): shape of the loop changed")
+    calls = [loop.group("t0")] + re.findall(r"if \(!refine\) refine = ([^;]+);", loop.group("rest"))
+    tests = []
+    for c in calls:
+        c = c.strip()
+        if c == "TestLinearization(this)":
+            tests.append(".testLin")
+        elif c in ("refine_obsdh_reductions(this)", "refine_obsdh_reductions(this, false)"):
+            tests.append(".obsdh false")
+        elif c == "refine_obsdh_reductions(this, true)":
+            tests.append(".obsdh true")
+        else:
+            broken(f"LocalNetwork::refine_adjustment(): unknown test `{c}`")
+    for pat, what in ((r"int clear_linearization_iterations\(\) \{ return \(iterations_ = 0\); \}", "clear"),
+                      (r"int increment_linearization_iterations\(\) \{ return \+\+iterations_; \}", "increment"),
+                      (r"bool next_linearization_iterations\(\) const \{ return iterations_ < max_linearization_iterations_; ?\}", "next"),
+                      (r"int linearization_iterations\(\) const \{ return iterations_; \}", "read")):
+        if not re.search(pat, re.sub(r"\s+", " ", nh)):
+            broken(f"network.h: iteration counter ({what}) changed")
+    out.append("/-- the tests of one turn of `LocalNetwork::refine_adjustment()` in program order:\n"
+               "    `bool refine = t0; if (!refine) refine = t1; …; if (!refine) break;\n"
+               "     increment_linearization_iterations(); refine_approx_coordinates();` inside\n"
+               "    `clear_linearization_iterations(); while (iterations_ < max_linearization_iterations_) { … }` -/\n"
+               "def refineTests : List Test := [" + ", ".join(tests) + "]\n")
+    out.append("end Gama.Gen.Obsdh\n")
+    return "\n".join(out)
+
+
 def translate(repo, lean_dir):
     text = translate_text(repo, lean_dir)
     dst = Path(lean_dir) / "Gama" / "Gen" / "TestLinVisitor.lean"
     dst.parent.mkdir(parents=True, exist_ok=True)
     if not dst.exists() or dst.read_text() != text:
         dst.write_text(text)
+    text2 = translate_obsdh_text(repo)
+    dst2 = Path(lean_dir) / "Gama" / "Gen" / "RefineObsdh.lean"
+    if not dst2.exists() or dst2.read_text() != text2:
+        dst2.write_text(text2)
     return dst
 
 
 if __name__ == "__main__":
     import sys
-    print(translate_text(sys.argv[1] if len(sys.argv) > 1 else "/repo"))
+    r = sys.argv[1] if len(sys.argv) > 1 else "/repo"
+    if len(sys.argv) > 2 and sys.argv[2] == "obsdh":
+        print(translate_obsdh_text(r))
+    else:
+        print(translate_text(r))
